@@ -88,10 +88,14 @@ finally:
 res['detected'] = detected
 d = '/verif/seeded/%s' % sid
 os.makedirs(d, exist_ok=True)
-shutil.copy(patch, os.path.join(d, 'patch.diff'))
-shutil.copy(demo, os.path.join(d, 'demo_test.go'))
+if os.path.abspath(patch) != os.path.abspath(os.path.join(d, 'patch.diff')):
+    shutil.copy(patch, os.path.join(d, 'patch.diff'))
+if os.path.abspath(demo) != os.path.abspath(os.path.join(d, 'demo_test.go')):
+    shutil.copy(demo, os.path.join(d, 'demo_test.go'))
 md = patch.replace('.diff', '.md')
 needs = open(md).read() if os.path.exists(md) else ''
+if not needs and os.path.exists(prev):
+    needs = json.load(open(prev)).get('needs_to_manifest', '')
 json.dump({'seed': sid, 'breaks': prop, 'needs_to_manifest': needs[:3000], 'demo_package_dir': demodir, 'confirmed': res, 'caught_by': {c: v['exit'] == 1 for c, v in detected.items()}},
           open(os.path.join(d, 'meta.json'), 'w'), indent=1)
 print(json.dumps(detected, indent=1))
